@@ -77,7 +77,7 @@ impl E2ECampaign {
     let cfg = FaultCfg { p_eintr: swarm(&mut rng, &[3, 10]), p_spurious_timeout: swarm(&mut rng, &[5, 20]), p_spurious_ready: swarm(&mut rng, &[5, 20]), p_latency: swarm(&mut rng, &[10, 40]), p_oversleep: swarm(&mut rng, &[20]), max_interrupts: rng.below(3) as u32 };
     let mut cfg = cfg;
     match rng.below(24) { 0 => cfg.p_spurious_timeout = 90, 1 => cfg.p_spurious_ready = 90, 2 => { cfg.p_eintr = 85; cfg.max_interrupts = 6 + rng.below(5) as u32; } _ => {} }
-    let b = CaseB { layout: a.sut_layout().unwrap_or_else(|_| a.layout.clone()), layout_name: a.layout_name.clone(), kbd, tab: vec![], has_tablet: false, cfg, tape: vec![], fail_at: None, extra_ticks: rng.below(3) as u32, kbd_end_at: None, tab_end_at: None, hybrid: true, write_fault: None, read_fault: None };
+    let b = CaseB { layout: a.sut_layout().unwrap_or_else(|_| a.layout.clone()), layout_name: a.layout_name.clone(), kbd, tab: vec![], has_tablet: false, cfg, tape: vec![], fail_at: None, extra_ticks: rng.below(3) as u32, kbd_end_at: None, tab_end_at: None, hybrid: true, write_fault: None, read_fault: None, poll_fault: None, syspoll: rng.chance(1, 2) };
     CaseE { a, b }
   }
 }
@@ -111,7 +111,7 @@ impl E2ECampaign {
     }
     let swarm = |rng: &mut Rng, choices: &[u32]| if rng.chance(1, 2) { 0 } else { rng.pick(choices) };
     let cfg = FaultCfg { p_eintr: swarm(rng, &[3, 10]), p_spurious_timeout: swarm(rng, &[5, 20]), p_spurious_ready: swarm(rng, &[5, 20]), p_latency: swarm(rng, &[10, 40]), p_oversleep: swarm(rng, &[20]), max_interrupts: rng.below(3) as u32 };
-    let b = CaseB { layout: a.sut_layout().unwrap_or_else(|_| a.layout.clone()), layout_name: a.layout_name.clone(), kbd, tab, has_tablet: true, cfg, tape: vec![], fail_at: None, extra_ticks: rng.below(3) as u32, kbd_end_at: None, tab_end_at: None, hybrid: true, write_fault: None, read_fault: None };
+    let b = CaseB { layout: a.sut_layout().unwrap_or_else(|_| a.layout.clone()), layout_name: a.layout_name.clone(), kbd, tab, has_tablet: true, cfg, tape: vec![], fail_at: None, extra_ticks: rng.below(3) as u32, kbd_end_at: None, tab_end_at: None, hybrid: true, write_fault: None, read_fault: None, poll_fault: None, syspoll: rng.chance(1, 2) };
     CaseE { a, b }
   }
 }
@@ -235,7 +235,7 @@ impl Campaign for E2ECampaign {
   fn runs(&self, thorough: bool) -> u64 { if thorough { self.thorough_runs } else { self.quick_runs } }
   fn declare(&self, acc: &mut Acc) {
     for f in ["chan_duplicate_press", "chan_spurious_release", "chan_dropped_event", "io_latency_in_call", "spurious_readiness", "signal_interrupts_poll", "arrival_during_drain"] { acc.declare_fault(f); }
-    acc.declare_probe("real_driver_polls_cross_checked"); acc.declare_probe("wakeup_with_two_or_more_events");
+    acc.declare_probe("real_driver_polls_cross_checked"); acc.declare_probe("wakeup_with_two_or_more_events"); acc.declare_probe("polls_through_the_shipped_real_driver_poll"); acc.declare_fault("wait_syscall_interrupted_eintr");
   }
   fn run(&self, seed: u64, idx: u64, ctx: &mut Ctx) -> RunResult {
     let mut case = self.generate(seed, ctx.thorough);
@@ -259,6 +259,7 @@ impl Campaign for E2ECampaign {
     acc.count("runs_not_replaying_exactly", soft_mismatch);
     let s = &out.stats;
     acc.fault("io_latency_in_call", s.latency); acc.fault("spurious_readiness", s.spurious_ready); acc.fault("signal_interrupts_poll", s.eintr); acc.fault("arrival_during_drain", s.arrival_during_drain);
+    acc.probe_n("polls_through_the_shipped_real_driver_poll", s.sys_polls_through_real_driver); acc.fault("wait_syscall_interrupted_eintr", s.sys_wait_eintr); acc.fault("wait_syscall_fabricated_readiness", s.sys_fabricated_ready); acc.fault("wait_syscall_stale_edge_dropped", s.sys_stale_dropped);
     acc.probe_n("real_driver_polls_cross_checked", s.real_polls_compared); acc.probe_n("wakeup_with_two_or_more_events", s.multi_event_wakeups);
     acc.count("runs_cut_short_by_the_trace_cap_and_not_evaluated", out.stats.trace_cap_hit.min(1));
     acc.count("steps", obs.steps); acc.count("sim_us", out.sim_us); acc.count("mappings_fired", obs.fired); acc.count("driver_calls", out.trace.len() as u64);
